@@ -14,7 +14,9 @@ EXPLANATION = (
     "body is `value.parse()`; (T4) every length check, in the templates and in the generator's own filter of enum values, counts "
     "`chars()`, never bytes; (D1) the membership test is negated exactly for allow-lists (EnumValue); (W1) every construction of "
     "an allow/deny-list constraint is preceded by validation of each listed value against the inner type; (W2) required "
-    "properties get no serde default and `deny_unknown_fields` is emitted from the IR flag."
+    "properties get no serde default and `deny_unknown_fields` is emitted from the IR flag; (W3) where the closedness of an "
+    "enum is accumulated over its variants the accumulation can only close (`|=` / `= true`): a plain reassignment forgets a "
+    "closed variant converted earlier."
 )
 ASSUMPTIONS = ["serde enforces tuple arity, tags and scalar JSON types", "regress implements ECMA-262 patterns"]
 
@@ -194,3 +196,14 @@ def run(facts, rep, tier):
         rep.ob("C05.W2", "closed-objects:%s" % kind, ok, "`deny_unknown_fields` pushed under `if *deny_unknown_fields`" if ok else "the %s emitter does not emit deny_unknown_fields from the IR flag" % kind, ts[0].sp if ts else None)
         serde_t = [t for t in e.templates if t.bound == "serde"]
         rep.ob("C05.W2", "serde-options-emitted:%s" % kind, bool(serde_t) and tp.flat(serde_t[0].tt).replace(" ", "") == "#[serde(#(#serde_options),*)]" and bool(e.used_as_hole("serde")), "#[serde(#(#serde_options),*)] is interpolated into the item")
+
+    # W3: closedness accumulates monotonically over the variants
+    import c02
+    n_j = 0
+    for hh in c.user_fns():
+        for n, how, kind in c02.closed_flag_joins(c, hh):
+            n_j += 1
+            key = "%s#%d" % (hh["fn"], sum(1 for o in rep.obligations if o["key"].startswith("C05.W3/closedness-accumulates:%s#" % hh["fn"])))
+            rep.ob("C05.W3", "closedness-accumulates:" + key, kind == "or", "`%s` can only close" % how if kind == "or" else
+                   "`%s` overwrites the flag on every variant: a variant with additionalProperties:false that is not the last one loses #[serde(deny_unknown_fields)] and accepts unknown members" % how, n.get("sp"))
+    rep.floor("C05.W3", "accumulations of deny_unknown_fields over variants", n_j, 4)
